@@ -221,3 +221,163 @@ def gen_a64dyn(limit=None):
                 ob["doc"] = doc
         fh.write("end DynasmVerif.A64Dyn\n")
     return dict(obligations=obligations, theorems=thms, forms=fs, entry_of=entry_of)
+
+
+# =================================================================================================== riscv
+RV_CHECKS = {"UImm", "SImm", "BigImm", "UImmNo0", "SImmNo0", "UImmOdd", "UImmRange"}
+RV_TY = {"UImm": "u32", "UImmNo0": "u32", "UImmOdd": "u32", "UImmRange": "u32", "SImm": "i32", "SImmNo0": "i32", "BigImm": "i64", "Offset": "i32"}
+RV_REGS = {"R", "Reven", "Rno0", "Rno02", "Rpop", "Rpops", "Rpops2", "Rlist", "RoundingMode", "FenceSpec", "Csr", "FloatingPointImmediate", "SPImm"}
+
+
+def rv_groups(cmds, equiv, ranges):
+    """arg index → dict(check=lean Check, fields=[(rounded, o, l, s)], ty) for the immediate slots, mirroring the cursor logic of compile_instruction"""
+    cur, out, open_ = 0, {}, None
+    for c in cmds:
+        n = name_of(c)
+        a = c[1:] if isinstance(c, tuple) else ()
+        if n == "Repeat":
+            cur -= 1
+        elif n == "Next":
+            cur += 1
+            open_ = None
+        elif n in RV_CHECKS:
+            if n in ("UImm", "UImmNo0"):
+                chk = f".{'range' if n == 'UImm' else 'rangeNo0'} 0 {(1 << a[0]) - 1} {a[1]}"
+            elif n in ("SImm", "SImmNo0"):
+                chk = f".{'range' if n == 'SImm' else 'rangeNo0'} ({-(1 << (a[0] - 1))}) {(1 << a[0]) - 1} {a[1]}"
+            elif n == "BigImm":
+                chk = f".big {a[0]}"
+            elif n == "UImmOdd":
+                chk = f".odd {(1 << a[0]) - 1} {a[1]}"
+            else:
+                chk = f".between {a[0]} {a[1]}"
+            open_ = dict(check=chk, fields=[], ty=RV_TY[n], cmd=c)
+            out[cur] = open_
+        elif n in ("BitRange", "RBitRange"):
+            if open_ is not None:
+                open_["fields"].append((n == "RBitRange", a[0], a[1], a[2]))
+        elif n == "Offset":
+            if a[0] in equiv:
+                bits, scaling, eq = equiv[a[0]]
+                rng = (1 << bits) - 1 if bits != 32 else ranges["imm"][1] - ranges["imm"][0]
+                out[cur] = dict(check=f".range ({-(1 << (bits - 1))}) {rng} {scaling}", fields=[(k == "RBitRange", o, l, s) for (k, o, l, s) in eq], ty="i32", cmd=c)
+            cur += 1
+            open_ = None
+        else:
+            cur += 1
+            open_ = None
+    return out
+
+
+def gen_rvdyn():
+    rows = [r for r in tables.dump("riscv") if "m" in r]
+    fs = forms.load("riscv")
+    if len(rows) != len(fs):
+        raise tables.TranslationError("riscv forms and table rows do not line up")
+    equiv = tables.rv_offset_equiv_from_source()
+    ranges = tables.rv_pair_range_from_source()
+    obligations, seen = [], {}
+    for fi, (f, r) in enumerate(zip(fs, rows)):
+        if f.template.split()[0] != r["m"]:
+            raise tables.TranslationError(f"form {fi} `{f.template}` does not belong to table entry {r['m']}")
+        op = rustdebug.parse(r["op"])
+        t = op["template"]
+        nwords = 1 if t[0] in ("Single", "Compressed") else 2 if t[0] == "Double" else len(t[1])
+        for idx, g in sorted(rv_groups(op["commands"], equiv, ranges).items()):
+            if idx not in f.indices or f.kind_of(idx) not in ("Imm", "Off") or not g["fields"]:
+                continue
+            fields = "[" + ", ".join(f"⟨{'true' if rd else 'false'}, {o}, {l}, {s}⟩" for (rd, o, l, s) in g["fields"]) + "]"
+            key = (g["check"], fields, t[0], nwords)
+            if key in seen:
+                seen[key]["forms"].append(fi)
+                continue
+            ob = dict(n=len(obligations), check=g["check"], fields=fields, ty=g["ty"], form=fi, idx=idx, forms=[fi], constraint=f.constraints.get(idx), mnemonic=f.mnemonic,
+                      compressed=t[0] == "Compressed", nwords=nwords, needs_prev=False, lean_cmds=g["check"] + " " + fields, cmd=g["cmd"], raw_fields=g["fields"])
+            seen[key] = ob
+            obligations.append(ob)
+    # ---- the generated run-time expression of each representative
+    reqs = []
+    for ob in obligations:
+        f = fs[ob["form"]]
+        vals = f.base_values()
+        if vals is None:
+            ob["skip"] = "no base instantiation"
+            reqs.append("cl ; .arch riscv64 ; .feature i ; nop")
+            continue
+        ob["vals"] = vals
+        ob["line"] = f.render(vals, runtime={ob["idx"]: "v"})
+        isa = "riscv64" if "rv64" in f.extra[0] else "riscv32"
+        ob["header"] = f"; .arch {isa} ; .feature {f.extra[1][0]} ;"
+        reqs.append("cl " + ob["header"] + " " + ob["line"])
+    _, out = common.sh([common.PLUG, "exec"], inp="\n".join(reqs) + "\n", timeout=3600)
+    answers = [a for (_, a) in common.answers_of_impl(out)]
+    W = {"u32": 32, "i32": 32, "i64": 64}
+    for ob, a in zip(obligations, answers):
+        if "skip" in ob:
+            continue
+        if not a.startswith("ok "):
+            ob["skip"] = "representative line rejected: " + a[:120]
+            continue
+        stmts = [s for s in json.loads(a[3:]) if s[:2] in ("c2", "c4", "eu")]
+        ob["words"] = []
+        try:
+            for s in stmts:
+                k, _, txt = s.partition("|")
+                if k in ("c2", "c4"):
+                    ob["words"].append(dict(K=int(txt, 16), ir=None, w=16 if k == "c2" else 32))
+                    continue
+                m = re.match(r"^\(+(\d+)u32 \|", txt)
+                if not m:
+                    raise rustexpr.Untranslatable("no leading constant")
+                ir = {ck: rustexpr.translate(txt, {"v": ob["ty"]}, ck) for ck in (True, False)}
+                ob["words"].append(dict(K=int(m.group(1)), ir=ir, w=16 if k == "eu2" else 32, expr=txt))
+            if not any(w["ir"] for w in ob["words"]):
+                ob["skip"] = "no run-time word"
+        except rustexpr.Untranslatable as e:
+            ob["skip"] = f"untranslatable: {e}"
+        ob["vars"] = {"v": ob["ty"]}
+    os.makedirs(common.GEN, exist_ok=True)
+    thms = []
+    with open(os.path.join(common.GEN, "RvDyn.lean"), "w") as fh:
+        fh.write("import Std.Tactic.BVDecide\nimport DynasmVerif.Model.RvEnc\nimport DynasmVerif.Model.EncUtil\n"
+                 "/-! generated on every run: run-time immediate expressions of the riscv macro (translated from the generated Rust) and their obligations -/\n"
+                 "set_option maxRecDepth 100000\nset_option maxHeartbeats 1000000\nnamespace DynasmVerif.RvDyn\nopen DynasmVerif.RvEnc DynasmVerif.Enc\n")
+        for ob in obligations:
+            if "skip" in ob:
+                continue
+            n, w = ob["n"], W[ob["ty"]]
+            ext = {"u32": "(v.zeroExtend 64)", "i32": "(v.signExtend 64)", "i64": "v"}[ob["ty"]]
+            fh.write(f"\n/-- `{ob['line']}` ({ob['mnemonic']}, operand {ob['idx']}) -/\n")
+            for tag, ck in (("checked", True), ("release", False)):
+                panics = [rustexpr.lean(wd["ir"][ck][0]) for wd in ob["words"] if wd["ir"]]
+                fh.write(f"def ob{n}_panic_{tag} (v : BitVec {w}) : Bool := " + " || ".join(panics) + "\n")
+                for k, wd in enumerate(ob["words"]):
+                    if wd["ir"]:
+                        fh.write(f"def ob{n}_word{k}_{tag} (v : BitVec {w}) : BitVec {wd['w']} := {rustexpr.lean(wd['ir'][ck][1])}\n")
+                conj = [f"ob{n}_panic_{tag} v = !(Check.ok ({ob['check']}) {ext})"]
+                for k, wd in enumerate(ob["words"]):
+                    if wd["ir"]:
+                        rhs = f"({wd['K']}#32 ||| contrib {ob['fields']} {ext} {k})"
+                        if wd["w"] == 16:
+                            rhs = f"({rhs}.truncate 16)"
+                        conj.append(f"(ob{n}_panic_{tag} v = false → ob{n}_word{k}_{tag} v = {rhs})")
+                fh.write(f"theorem ob{n}_dyn_eq_static_{tag} (v : BitVec {w}) :\n    " + " ∧\n    ".join(conj) + " := by\n"
+                         f"  simp only [ob{n}_panic_{tag}, " + ", ".join(f"ob{n}_word{k}_{tag}" for k, wd in enumerate(ob["words"]) if wd["ir"]) + "]\n  rv_unfold\n  bv_decide (config := { timeout := 120 })\n")
+                thms.append(f"ob{n}_dyn_eq_static_{tag}")
+            ob["theorems"] = [f"ob{n}_dyn_eq_static_checked", f"ob{n}_dyn_eq_static_release"]
+            doc = doc_lean(ob["constraint"], False)
+            # HI20 / LO12 / LO12S carry one half of a 32-bit offset by design: the instruction alone does not determine the operand
+            partial = name_of(ob["cmd"]) == "Offset" and ob["cmd"][1] in ("HI20", "LO12", "LO12S")
+            if doc is not None and partial:
+                fh.write(f"theorem ob{n}_accepts_doc (v : BitVec 64) (hd : {doc} = true) : Check.ok ({ob['check']}) v = true := by\n  rv_unfold\n  bv_decide (config := {{ timeout := 120 }})\n")
+                thms.append(f"ob{n}_accepts_doc")
+                ob["theorems"].append(f"ob{n}_accepts_doc")
+            elif doc is not None:
+                fh.write(f"theorem ob{n}_accepts_doc (v : BitVec 64) (hd : {doc} = true) : Check.ok ({ob['check']}) v = true := by\n  rv_unfold\n  bv_decide (config := {{ timeout := 120 }})\n")
+                allw = " ∧ ".join(f"contrib {ob['fields']} v {k} = contrib {ob['fields']} w {k}" for k in range(ob["nwords"]))
+                fh.write(f"theorem ob{n}_injective (v w : BitVec 64) (hv : Check.ok ({ob['check']}) v = true) (hw : Check.ok ({ob['check']}) w = true)\n"
+                         f"    (h : {allw}) : v = w := by\n  rv_unfold\n  bv_decide (config := {{ timeout := 120 }})\n")
+                thms += [f"ob{n}_accepts_doc", f"ob{n}_injective"]
+                ob["theorems"] += [f"ob{n}_accepts_doc", f"ob{n}_injective"]
+        fh.write("end DynasmVerif.RvDyn\n")
+    return dict(obligations=obligations, theorems=thms, forms=fs)
